@@ -3,7 +3,7 @@
    "= Ret ..." also says the cast never reads beyond the smaller type. *)
 From Coq Require Import NArith List Bool String.
 Import ListNotations.
-From BM Require Import Base.Outcome Base.Prims Base.Layout Spec.CastSpec.
+From BM Require Import Base.Outcome Base.Prims Base.Layout Spec.CastSpec Spec.MustSpec.
 From BM Require Import Proofs.CastValue Proofs.CastChecked Proofs.CastMust Proofs.CastPanicking.
 From BM.Gen Require Internal Root Checked Must.
 Open Scope string_scope.
